@@ -33,7 +33,7 @@ func (g *BranchReportResponseCodec) Decode(in []byte) interface{} {
 
 	data.ResultCode = message.ResultCode(bytes.ReadByte(buf))
 	if data.ResultCode == message.ResultCodeFailed {
-		data.Msg = bytes.ReadString8Length(buf)
+		data.Msg = bytes.ReadString16Length(buf)
 	}
 	data.TransactionErrorCode = serror.TransactionErrorCode(bytes.ReadByte(buf))
 
@@ -50,7 +50,7 @@ func (g *BranchReportResponseCodec) Encode(in interface{}) []byte {
 		if len(data.Msg) > math.MaxInt8 {
 			msg = data.Msg[:math.MaxInt8]
 		}
-		bytes.WriteString8Length(msg, buf)
+		bytes.WriteString16Length(msg, buf)
 	}
 	buf.WriteByte(byte(data.TransactionErrorCode))
 
